@@ -333,6 +333,9 @@ HOSTILE_EXPRS = [
 ]
 
 
+FAULT_EXPRS = ["10**400", "-10**400", "1e999", "1/0", "0**-1", "1 % 0", "7 // 0", "int(10.0**400)", "-'a'", "'a' + 1", "int('x')", "[1][5]", "float('x')", "'é'", "1 << -1", "abs('a')", "max()", "len(5)"]
+
+
 def hostile_cases():
     from contracts.c08 import PRELUDE, DEVICES
     cases = []
@@ -354,6 +357,25 @@ def hostile_cases():
             (f"servo-kw:{tag}", f"from Reduino.Actuators import Servo\ns = Servo(9, min_angle={h})\ns.write({h})\n"),
             (f"lcd-text:{tag}", f"from Reduino.Displays import LCD\nl = LCD(i2c_addr=39)\nl.write(0, 0, {h}, align='left')\n"),
         ]
+    # expressions whose transpile-time folding faults (not hostile code): the fault must surface as ValueError/SyntaxError or be left to run time
+    for f in FAULT_EXPRS:
+        tag = f[:14]
+        cases += [
+            (f"append:{tag}", f"xs = [1, 2]\nxs.append({f})\n"), (f"remove:{tag}", f"xs = [1, 2]\nxs.remove({f})\n"),
+            (f"fault-assign:{tag}", f"v = {f}\n"), (f"fault-sleep:{tag}", f"from Reduino.Utils import sleep\nsleep({f})\n"),
+            (f"fault-cond:{tag}", f"x = 1\nif {f}:\n    x = 2\n"), (f"fault-range:{tag}", f"for i in range({f}):\n    pass\n"),
+            (f"fault-blink:{tag}", f"from Reduino.Actuators import Led\nled = Led(13)\nled.blink({f})\n"),
+            (f"fault-list:{tag}", f"ys = [1, {f}]\n"), (f"fault-fstring:{tag}", f"from Reduino.Communication import SerialMonitor\nm = SerialMonitor(9600)\nm.write(f'v={{{f}}}')\n"),
+            (f"fault-servo:{tag}", f"from Reduino.Actuators import Servo\ns = Servo(9, min_angle={f})\ns.write({f})\ns.write_us({f})\n"),
+            (f"fault-buzzer:{tag}", f"from Reduino.Actuators import Buzzer\nb = Buzzer(8, default_frequency={f})\nb.play_tone({f})\nb.beep({f}, on_ms={f}, times={f})\nb.sweep({f}, {f}, duration_ms={f}, steps={f})\nb.melody('success', tempo={f})\n"),
+            (f"fault-pattern:{tag}", f"from Reduino.Actuators import Led\nled = Led(13)\nled.flash_pattern([1, {f}], {f})\nled.fade_in({f}, {f})\nled.set_brightness({f})\n"),
+            (f"fault-motor:{tag}", f"from Reduino.Actuators import DCMotor\nm = DCMotor(2, 3, 5)\nm.set_speed({f})\nm.ramp({f}, {f})\nm.run_for({f}, {f})\n"),
+            (f"fault-rgb:{tag}", f"from Reduino.Actuators import RGBLed\nr = RGBLed(9, 10, 11)\nr.set_color({f}, 1, 2)\nr.fade(1, 2, 3, {f}, {f})\nr.blink(1, 2, 3, {f}, {f})\n"),
+            (f"fault-lcd:{tag}", f"from Reduino.Displays import LCD\nl = LCD(i2c_addr=39, cols={f})\nl.write({f}, {f}, 'x')\nl.progress(0, {f}, {f}, width={f})\nl.brightness({f})\n"),
+            (f"fault-call-arg:{tag}", f"def g(a):\n    return a\nw = g({f})\n"), (f"fault-in-function:{tag}", f"xs = [1]\ndef h():\n    xs.append({f})\nh()\n"),
+        ]
+    cases += [("tuple-too-few-values", "a, b, c = 1, 2\n"), ("tuple-too-many-values", "a, b = 1, 2, 3\n"), ("tuple-from-scalar", "a, b = 5\n"),
+              ("swap-length-mismatch", "a = 1\nb = 2\na, b = b, a, a\n")]
     cases += [("noise-1", "\x00\x01\x02 garbage ((("), ("noise-2", "def def def"), ("noise-3", "while True:\n\tx = = 1\n"),
               ("empty", ""), ("unicode", "s = 'üñí✓'\n"), ("inf-literal", "from Reduino.Actuators import Led\nled = Led(13)\nled.set_brightness(1e999)\n")]
     return cases
@@ -400,6 +422,15 @@ def hostile_replay(tier, out):
     for a, b in (("'ab'", "10**10"), ("10**10", "'ab'"), ("[0]", "10**10"), ("10**10", "[0, 1]"), ("'ab' * 10**5", "10**6")):
         big.append((f"repeat {a}*{b}", f"x = {a} * {b}\n"))
     big.append(("factorial-like", "x = " + " * ".join(["10**300"] * 60) + "\n"))
+    # header / call regexes must not backtrack exponentially: long identifiers followed by text that makes the header not match
+    L = "averyveryverylongidentifiername" * 2
+    for k, text in enumerate([
+            f"try:\n    x = 1\nexcept {L}.{L}.{L}: pass\n", f"try:\n    x = 1\nexcept {L}, e:\n    pass\n", f"try:\n    x = 1\nexcept ({L}, {L}) as e junk\n    pass\n",
+            f"x = 1\nif x > 0:\n    x = 2\nelif {L} {L} !!\n    x = 3\n", f"for {L} in range(3) junk:\n    pass\n", f"def {L}(a, b junk:\n    pass\n",
+            f"while {L} {L} junk\n    pass\n", f"{L}.{L}.{L}({L}, {L}\n", f"from Reduino.Actuators import Led\nled = Led({'(' * 60}1{')' * 59}\n",
+            f"from {L}.{L} import {L} as {L} junk\n", f"led = {L}({L}={L}, {L}={L} {L})\n", f"x = '{'a' * 3000}' + \"{'b' * 3000}\n",
+            "x = " + "[" * 200 + "]" * 199 + "\n", f"import {'.'.join([L] * 12)} junk junk\n"]):
+        big.append((f"regex-{k}", text))
 
     def one_case(job):
         name, text = job
